@@ -161,11 +161,11 @@ PROPS = {
                 "implementation's own counters (hook H2) must satisfy misses <= 36*(tokens+1) and scan steps <= 2*(tokens+1)^2, and the best-"
                 "of-3 time of tokenize+parse may grow at most 6x (+3 ms) per doubling. Non-trivial: every member; distinct by text.",
         "trusted_base": TB_COMMON + [
-            "translator: memo flags of the 36 parse functions regenerated from parser.rs (Theorem all_memoised)",
+            "translator: memo flags of the 36 parse functions and the bodies of the four caching macros regenerated / compared from parser.rs (Theorems all_memoised, no_left_recursion)",
             "hook H2 (feature verif): counters of memo-table misses and recovery-scan steps in the real parser",
-            "modelled, not verified: the packrat bound is stated, not proved; machine time per step cannot be modelled and is measured",
+            "modelled, not verified: the packrat bound and termination are theorems of the parser MODEL (tied to parser.rs by the generated skeleton and the C07 correspondence incl. miss and scan counters); machine time per step cannot be modelled and is measured",
         ],
-        "assumptions": ["timing is measured on this machine under load from the other 15 cores; the growth threshold is deliberately loose"],
+        "assumptions": ["timing is measured on this machine under load from the other 15 cores; the growth threshold is deliberately loose and a doubling that exceeds it is re-measured three times (minimum kept) before it counts"],
     },
     "C16": {
         "level": "proof",
@@ -418,14 +418,17 @@ MANIFEST_TEXT = {
         "technique": "Coq proofs on the tokenizer/parser models (no panic, non-empty errors) + exhaustive short-input and random robustness runs under process isolation",
     },
     "C17": {
-        "text": "Kernel-checked for all inputs: every parse function regenerated from parser.rs is memoised (dropping one cache_check! breaks "
-                "the theorem). The resulting packrat bound is checked on the real parser's own miss/scan counters over 21 scaling families up "
-                "to thousands of tokens, well-formed and truncated, together with measured time growth per doubling; and the model's "
-                "counters equal the implementation's on every explored sequence (C07). Partial: the bound is not yet a Coq theorem and time "
-                "per step is measured, not modelled.",
+        "text": "Kernel-checked for all inputs: every parse function regenerated from parser.rs is memoised and the caching macros are the "
+                "modelled ones (dropping one cache_check!, or making cache_return! conditional, breaks a generated obligation); the generated "
+                "skeleton has no left recursion (no_left_recursion); and the packrat bound is a theorem of the parser model for every token "
+                "list: at most one body execution per (nonterminal, position), misses <= 36*(tokens+1) (packrat_miss_bound), and the "
+                "recursion stays within its linear fuel (parse_top_within_fuel). The bound is also checked on the real parser's own miss/scan "
+                "counters over 21 scaling families up to thousands of tokens, well-formed and truncated, together with measured time growth "
+                "per doubling; and the model's counters equal the implementation's on every explored sequence (C07). Time per step is "
+                "measured, not modelled.",
         "design_ref": "DESIGN.md section 4, C17",
         "note": "Thresholds: misses <= 36*(tokens+1); scans <= 2*(tokens+1)^2; time x6 + 3 ms per doubling.",
-        "technique": "generated all-memoised obligation (vm_compute) + hook counters against the packrat bound + scaling measurement",
+        "technique": "Coq proof of the packrat bound and of termination for the parser model over the generated skeleton (all-memoised and no-left-recursion obligations by vm_compute) + hook counters against the bound + scaling measurement",
     },
     "C16": {
         "text": "The round-trip is checked on the implementation itself for every term former in every operand position of every other "
